@@ -31,7 +31,8 @@ MANIFEST = {
             '(light, group, location, all, zone, matrix cell inline and staged, '
             'power on/off for light/group/location/all) and every transmitted '
             'argument is compared with an exact rational oracle (tolerance half '
-            'a raw unit). Grids are sampled, not all register combinations.',
+            'a raw unit); scripts of 2-6 settings under changing unit modes with '
+            'recurring numbers are checked command by command. Grids are sampled, not all register combinations.',
     'note': 'Trusted: the rational oracle (bvf/oracle.py) and the simulated '
             'lifxlan devices; set_zone_color(start,end) is taken as [start,end).',
 }
@@ -95,6 +96,14 @@ def check_run(ctx, mode, vals, r, replay):
         ctx.violation('grid:event-count', 'expected {} device requests, saw {}'
                       .format(N_EVENTS, len(evs)), replay)
         return
+    check_events(ctx, mode, vals, evs, replay)
+
+
+def check_events(ctx, mode, vals, evs, replay, tag=''):
+    c0, c1, c2, k, d = vals
+    ideal = oracle.ideal_color(mode, c0, c1, c2, k)
+    idur = oracle.ideal_duration(mode, d)
+    hue_free = mode == 'rgb' and (ideal[1] <= 1 or ideal[2] <= 1)
     for e in evs:
         meth = e[2] if e[0] == 'dev' else e[1]
         args = e[3] if e[0] == 'dev' else e[2]
@@ -122,14 +131,14 @@ def check_run(ctx, mode, vals, r, replay):
             ctx.count('values_checked', 4)
             msg = oracle.color_ok(col, ideal, hue_free=hue_free)
             if msg:
-                ctx.violation('numeric:{}:{}'.format(kind, mode),
+                ctx.violation('numeric:{}:{}{}'.format(kind, mode, tag),
                               '{} {}: {} (registers {})'.format(
                                   who, meth, msg, vals), replay)
         if type(dur) is int:
             ctx.count('values_checked')
             msg = oracle.duration_ok(dur, idur)
             if msg:
-                ctx.violation('duration:{}:{}'.format(kind, mode),
+                ctx.violation('duration:{}:{}{}'.format(kind, mode, tag),
                               '{} {}: {} (duration register {} in {} units)'
                               .format(who, meth, msg, d, mode), replay)
 
@@ -196,6 +205,78 @@ def part_grid(ctx):
         check_run(ctx, mode, vals, r, replay)
         if i % 997 == 0:
             ctx.sample({'part': 'grid', 'script': text[:160] + '...'})
+
+
+COMMANDS = ['set "A"', 'set group "G1"', 'set location "P2"', 'set all',
+            'set "Z" zone 1 2', 'set "M" row 0 column 1',
+            'set "M" row 0 2 column 0 1', 'set "M" begin stage row 1 end',
+            'set "M" begin stage row 0 1 column 0 1 end', 'on "A"',
+            'off group "G1"']
+POOL = {'logical': ([0, 50, 100, 120, 240, 300, 359.5, 25, 10, 75],
+                    [0, 50, 100, 25, 10, 75, 99.5]),
+        'raw': ([0, 50, 100, 120, 240, 300, 25, 10, 75, 32768, 65535],
+                [0, 50, 100, 25, 10, 75, 32768, 65535]),
+        'rgb': ([0, 50, 100, 25, 10, 75, 99.5], [0, 50, 100, 25, 10, 75, 99.5])}
+
+
+def part_mixed(ctx):
+    """several settings in one script: the same numbers sent under different
+    unit modes, repeated, and through different command kinds -- what one
+    command transmits must not depend on what an earlier one transmitted"""
+    n = 20000 if ctx.tier == 'thorough' else 1200
+    for i in range(ctx.shard, n, ctx.nshards):
+        rng = ctx.rng('mixed', i)
+        segs, parts = [], []
+        base = [rng.choice(POOL['rgb'][0]) for _ in range(3)]
+        for j in range(rng.randint(2, 6)):
+            mode = rng.choice(['logical', 'raw', 'rgb'])
+            first, rest = POOL[mode]
+            if rng.random() < 0.6:       # the numbers of an earlier segment
+                vals3 = list(segs[-1][1][:3]) if segs and rng.random() < 0.5 \
+                    else list(base)
+            else:
+                vals3 = [rng.choice(first), rng.choice(rest), rng.choice(rest)]
+            if (mode == 'rgb' and max(vals3) > 100) or (
+                    mode == 'logical' and (vals3[0] > 360
+                                           or max(vals3[1:]) > 100)):
+                vals3 = [rng.choice(first), rng.choice(rest), rng.choice(rest)]
+            k = rng.choice([2700, 2700, 3500, 9000])
+            d = rng.choice([0, 1, 2, 1500]) if mode == 'raw' else \
+                rng.choice([0, 1, 2, 0.5])
+            cmd = rng.choice(COMMANDS)
+            a, b, c = REG3[mode]
+            parts.append('units {} {} {} {} {} {} {} kelvin {} duration {} {} '
+                         'print {}'.format(mode, a, lit(vals3[0]), b,
+                                           lit(vals3[1]), c, lit(vals3[2]),
+                                           lit(k), lit(d), cmd, j))
+            segs.append((mode, tuple(vals3) + (k, d), cmd))
+        text = ' '.join(parts)
+        r = run_script(text)
+        replay = {'part': 'mixed', 'script': text,
+                  'segments': [[m, list(v), c] for m, v, c in segs]}
+        ctx.case('M:' + text)
+        ctx.count('mixed_scripts')
+        if not r.accepted or r.stops:
+            ctx.violation('mixed:rejected-or-aborted', '{} {} | {}'.format(
+                r.errors, r.stops[:1], text[:300]), replay)
+            continue
+        for rv in r.range:
+            ctx.violation('range:' + rv[0].split('.')[-1] + ':' + rv[1],
+                          'out-of-protocol argument {} at {} | {}'.format(
+                              rv[2], rv[0], text[:300]), replay)
+        cur, j = [], 0
+        for e in r.log:
+            if e[0] in ('dev', 'lan'):
+                cur.append(e)
+            elif e[0] == 'out' and e[1] == 'out' and e[2] == j:
+                mode, vals, cmd = segs[j]
+                if not cur:
+                    ctx.violation('mixed:nothing-sent', 'segment {} ({}) sent '
+                                  'nothing | {}'.format(j, cmd, text[:300]),
+                                  replay)
+                check_events(ctx, mode, vals, cur, replay, ':mixed')
+                ctx.count('mixed_segments')
+                cur, j = [], j + 1
 
 
 def part_roundtrip(ctx):
@@ -281,6 +362,7 @@ def part_roundtrip(ctx):
 def run_shard(ctx):
     env.configure(simnet.make_devices(DEVICES))
     part_roundtrip(ctx)
+    part_mixed(ctx)
     part_grid(ctx)
 
 
@@ -289,7 +371,8 @@ def finalize(merged):
     if c.get('roundtrip_logical') != 65536 and not merged['violations']:
         merged['inconclusive'].append('exhaustive sweep incomplete: {}'.format(
             c.get('roundtrip_logical')))
-    for m in ('grid_logical', 'grid_raw', 'grid_rgb', 'values_checked'):
+    for m in ('grid_logical', 'grid_raw', 'grid_rgb', 'values_checked',
+              'mixed_segments'):
         if not c.get(m):
             merged['inconclusive'].append('no ' + m)
     merged['coverage_extra'] = {
@@ -302,7 +385,12 @@ def replay(doc):
     env.configure(simnet.make_devices(DEVICES))
     ctx = Ctx('C07', 'quick', 0, 0, 1)
     r = doc.get('replay') or {}
-    if r.get('part') == 'grid':
+    if r.get('part') == 'mixed':
+        run = run_script(r['script'])
+        for e in run.log:
+            print(e)
+        print('segments:', r['segments'])
+    elif r.get('part') == 'grid':
         run = run_script(r['script'])
         for e in run.dev_events():
             print(e)
